@@ -1987,6 +1987,9 @@ def properties_to_expression_tree(var: CanBehaveLikeAVariable, properties: Dict[
 
 
 def _optimize_or(left: SymbolicExpression, right: SymbolicExpression) -> OR:
+    if not isinstance(left, SymbolicExpression) or not isinstance(right, SymbolicExpression):
+        # a constant operand (or_ takes SymbolicExpression | bool): the operator wraps it, as and_ does.
+        return ElseIf(left, right)
     left_vars = left._unique_variables_.filter(lambda v: not isinstance(v.value, Literal))
     right_vars = right._unique_variables_.filter(lambda v: not isinstance(v.value, Literal))
     if left_vars == right_vars:
